@@ -635,13 +635,32 @@ class Interp:
 
     def st_Assert(self, st, env, fr):
         ctx = cur()
-        c = self.truth(self.eval(st.test, env, fr))
+        # `assert torch.all(X)` / `assert X.all()`: the elementwise tensor X is kept, so that a contract can use the passed
+        # assert at a chosen index (U.asserted) instead of leaving the instantiation to the solver
+        elem = None
+        t_ = st.test
+        if isinstance(t_, ast.Call) and not t_.keywords:
+            if isinstance(t_.func, ast.Attribute) and t_.func.attr == "all":
+                base = t_.func.value
+                if isinstance(base, ast.Name) and base.id == "torch" and len(t_.args) == 1:
+                    elem = self.eval(t_.args[0], env, fr)
+                elif not t_.args:
+                    elem = self.eval(base, env, fr)
+        if isinstance(elem, SymTensor):
+            c = self.truth(TM["all"](elem))
+        elif elem is not None and type(elem).__name__ == "MaskedSel":
+            c, elem = self.truth(elem.all()), None
+        elif elem is not None:
+            c, elem = self.truth(self.apply(("torchfn", "all"), [elem], {})), None
+        else:
+            c = self.truth(self.eval(st.test, env, fr))
         loc = ctx.loc
         msg = ""
         if st.msg is not None and isinstance(st.msg, ast.Constant):
             msg = str(st.msg.value)
         if ctx.assert_mode == "record":
-            ctx.recorded_asserts.append({"loc": loc, "msg": msg, "cond": ops.B_(c), "path": list(ctx.path)})
+            ctx.recorded_asserts.append({"loc": loc, "msg": msg, "cond": ops.B_(c), "path": list(ctx.path),
+                                         "elem": elem.snap() if elem is not None else None, "shape": tuple(elem.shape) if elem is not None else None})
             ctx.assume(c if not isinstance(c, bool) else c)
         else:
             ctx.oblige(f"assert:{loc}:{msg[:40]}", ops.B_(c), kind="assert")
@@ -955,7 +974,9 @@ class Interp:
         if type(obj).__name__ == "MaskedSel":
             if name in ("any", "all"):
                 return getattr(obj, name)
-            if name in TM:
+            from .methods import MASKED_ELEMENTWISE
+
+            if name in TM and name in MASKED_ELEMENTWISE:
                 return lambda *a, **k: obj.map(lambda t: TM[name](t, *a, **k))
             raise Unsupported(f"masked selection attribute {name}")
         if isinstance(obj, ops.MaxResult):
@@ -1078,6 +1099,10 @@ class Interp:
                 return str(a) + str(b)
             if op == "mod":
                 return "<fmt>"
+        if type(a).__name__ == "MaskedSel" or type(b).__name__ == "MaskedSel":
+            from .methods import masked_lift
+
+            return masked_lift(lambda x, y: self.binop(op, x, y), a, b)
         if isinstance(a, (SymTensor,)) or isinstance(b, SymTensor):
             if isinstance(a, Inf) or isinstance(b, Inf):
                 return binop(op, a, b)
@@ -1275,6 +1300,13 @@ class Interp:
         if isinstance(f, tuple) and len(f) == 2 and f[0] == "torchfn":
             cur().used_ops.add("torch." + f[1])
             kwargs.pop("device", None)
+            if any(type(a).__name__ == "MaskedSel" for a in args):
+                from .methods import MASKED_ELEMENTWISE, masked_lift
+
+                if f[1] in MASKED_ELEMENTWISE and not kwargs:
+                    return masked_lift(TF[f[1]], *args)
+                if f[1] not in ("any", "all"):
+                    raise Unsupported(f"torch.{f[1]} on a masked selection")
             return TF[f[1]](*args, **kwargs)
         if isinstance(f, tuple) and len(f) == 2 and f[0] == "torchfn.F":
             cur().used_ops.add("F." + f[1])
